@@ -526,7 +526,10 @@ cb_read_token (void **attr)
 {
   if (i_ptok >= n_ptoks)
     {
-      *attr = NULL;
+      /* the attribute delivered together with the end-of-input code is not
+         part of the input: a careless caller leaves something there */
+      static struct cell end_sentinel;
+      *attr = &end_sentinel;
       return tok_end_code;
     }
   *attr = &cur_cells[i_ptok];
